@@ -431,6 +431,25 @@ func runC03UpgradeAfterClose(cause string, r *rep.Report) (key, msg string) {
 		if key == "" && (sock.Upgraded() || sock.Transport().Name() != "polling") {
 			key, msg = "c03-event-after-close:upgrade", fmt.Sprintf("a closed session switched transport: Upgraded()=%v transport %s", sock.Upgraded(), sock.Transport().Name())
 		}
+		// the candidate of a session that closed must have been closed by the server
+		gone := make(chan struct{})
+		go func() {
+			for {
+				if _, _, e := cand.WS.ReadMessage(); e != nil {
+					close(gone)
+					return
+				}
+			}
+		}()
+		time.Sleep(time.Second)
+		rig.Wait()
+		select {
+		case <-gone:
+		default:
+			if key == "" {
+				key, msg = "c08-candidate-left-open", fmt.Sprintf("session closed (%s) while a candidate was being entertained and its upgrade packet arrived during the close: one second later the candidate connection is still open", cause)
+			}
+		}
 		cl.Stop()
 	})
 	return
